@@ -67,6 +67,35 @@ def decode_template(b):
     return out
 
 
+def decode_specs(b):
+    """per placeholder: {'width': int|None, 'precision': int|None, 'zero': bool, 'fill': chr} (same walk as decode_template)"""
+    out = []
+    i = 0
+    while i < len(b):
+        n = b[i]; i += 1
+        if n == 0:
+            break
+        if n < 0x80:
+            i += n
+        elif n == 0x80:
+            ln = b[i] | (b[i + 1] << 8); i += 2 + ln
+        else:
+            spec = {'width': None, 'precision': None, 'zero': False, 'fill': ' '}
+            if n & 1:
+                fl = b[i] | (b[i + 1] << 8) | (b[i + 2] << 16) | (b[i + 3] << 24)
+                spec['zero'] = bool(fl & (1 << 24))
+                spec['fill'] = chr(fl & 0x1FFFFF)
+                i += 4
+            if n & 2:
+                spec['width'] = b[i] | (b[i + 1] << 8); i += 2
+            if n & 4:
+                spec['precision'] = b[i] | (b[i + 1] << 8); i += 2
+            if n & 8:
+                i += 2
+            out.append(spec)
+    return out
+
+
 def _trace_const(fn, defs, l, depth=0):
     for _ in range(8):
         if l is None:
@@ -97,6 +126,7 @@ def format_sites(prog, fn):
             c = _trace_const(fn, defs, op_local(t['args'][0]))
             b = parse_rust_bytes(c) if isinstance(c, str) else None
             pieces = decode_template(b) if b is not None else None
+            specs = decode_specs(b) if b is not None else None
             # argument constructors: array aggregate feeding arg1
             args = []
             l = op_local(t['args'][1])
@@ -128,7 +158,7 @@ def format_sites(prog, fn):
             text = None
             if pieces is not None:
                 text = ''.join(p[1] if p[0] == 'lit' else '{}' for p in pieces)
-            out.append({'block': i, 'line': t['l'], 'pieces': pieces, 'args': args, 'text': text})
+            out.append({'block': i, 'line': t['l'], 'pieces': pieces, 'args': args, 'text': text, 'specs': specs})
         elif n in ("core::fmt::Arguments::<'a>::from_str", "core::fmt::Arguments::<'a>::from_str_nonconst"):
             from .cfg import str_const
             s = None
